@@ -51,7 +51,7 @@ Deliver, in `{wt}/`:
 * `NOTES.md` - one short paragraph: what the change is and exactly what it needs in order to manifest.
 
 Confirm yourself: demo on unpatched tree -> exit 0; demo on patched tree -> exit 1; full test suite on the patched tree ->
-534 passed. Then leave the working tree UNPATCHED (`git checkout -- paramiko`) with the three files present (untracked).
+534 passed. Then leave the working tree UNPATCHED (`git checkout -- paramiko`) with the three files present (untracked). Never use `git stash` (the stash is shared with other worktrees of this repository): switch between patched and unpatched with `git apply patch.diff` / `git apply -R patch.diff` / `git checkout -- paramiko`.
 
 Final answer: the one-sentence "needs in order to manifest" text and the outcomes of the three confirmations.
 """
